@@ -32,6 +32,7 @@ import (
 type c19inproc struct {
 	h http.Handler
 
+	started   atomic.Int64 // Do calls entered
 	open      atomic.Int64 // response bodies handed out and not yet closed
 	total     atomic.Int64 // response bodies handed out
 	byClose   atomic.Int64 // ... closed from jhttp.(*Channel).Close (drain)
@@ -76,6 +77,7 @@ func (b *c19body) Close() error {
 }
 
 func (cl *c19inproc) Do(req *http.Request) (*http.Response, error) {
+	cl.started.Add(1)
 	rec := httptest.NewRecorder()
 	cl.h.ServeHTTP(rec, req)
 	rsp := rec.Result()
@@ -653,7 +655,87 @@ func c19rawRun(c *vt.Ctx, k, r, notes int, obs *c19obs) {
 	c.Eval(1)
 }
 
+// c19sendCloseRun: messages are handed to Send and Close follows at once, from the
+// same goroutine, with no quiescent point in between (a client that posts a
+// notification and hangs up). When Close returns, every request goroutine must be
+// done: no HTTP request may start afterwards (a goroutine that has not run yet
+// counts), no response body may be open.
+func c19sendCloseRun(c *vt.Ctx, calls, notes int, viaClient bool) {
+	ctrl := sched.New()
+	what := fmt.Sprintf("%d calls and %d notifications handed to Send, then Close at once (through a jrpc2.Client: %v)", calls, notes, viaClient)
+	peer.Bubble(c, ctrl, func() {
+		log := peer.NewLog()
+		c.Attach(func() any { return map[string]any{"scenario": what, "handler_log": log.Dump()} })
+		H := peer.NewHandlers(log)
+		bridge := jhttp.NewBridge(H, nil)
+		inp := &c19inproc{h: bridge}
+		ch := jhttp.NewChannel("http://bridge.invalid/rpc", &jhttp.ChannelOptions{Client: inp})
+		var closeErr error
+		if viaClient {
+			cli := jrpc2.NewClient(ch, nil)
+			for j := 0; j < notes; j++ {
+				if err := cli.Notify(context.Background(), "i", c19tag(fmt.Sprintf("n%d", j))); err != nil {
+					c.Failf("%s: Notify: %v", what, err)
+				}
+			}
+			closeErr = cli.Close()
+		} else {
+			for j := 0; j < calls+notes; j++ {
+				id := ""
+				if j%2 == 0 && j/2 < calls || j >= 2*notes {
+					id = fmt.Sprint(j + 1)
+				}
+				if err := ch.Send([]byte(peer.Req(id, "i", fmt.Sprintf("m%d", j)))); err != nil {
+					c.Failf("%s: Send: %v", what, err)
+				}
+			}
+			closeErr = ch.Close()
+		}
+		// Close has returned; nothing has been allowed to settle since
+		startedAtClose := inp.started.Load()
+		if closeErr != nil {
+			c.Failf("%s: Close: %v", what, closeErr)
+		}
+		if n := inp.open.Load(); n != 0 {
+			c.Failf("%s: Close has returned and %d of %d HTTP response bodies are still open", what, n, inp.total.Load())
+		}
+		// (a request goroutine that has done its work and signalled so may still be
+		// on its way out at this instant; one that has not issued its request yet
+		// shows up below as a request started after Close)
+		ctrl.Settle()
+		if n := inp.started.Load(); n != startedAtClose {
+			c.Failf("%s: %d HTTP request(s) were started after Close had returned (%d before)", what, n-startedAtClose, startedAtClose)
+		}
+		if n := inp.open.Load(); n != 0 {
+			c.Failf("%s: at the end %d HTTP response bodies are open", what, n)
+		}
+		c.Count("h_sendclose_requests_seen", int(inp.started.Load()))
+		if err := bridge.Close(); err != nil {
+			c.Failf("%s: Bridge.Close: %v", what, err)
+		}
+		ctrl.Settle()
+		inp.count(c)
+	})
+	c.Eval(1)
+}
+
 func c19casesH(e vt.Env, yield func(vt.Case) bool) bool {
+	// H/sc: Send immediately followed by Close.
+	if !yield(vt.Case{ID: "H/sc", Run: func(c *vt.Ctx) {
+		for calls := 0; calls <= 3; calls++ {
+			for notes := 0; notes <= 3; notes++ {
+				for rep := 0; rep < e.Pick(3, 20) && !c.Failed(); rep++ {
+					c19sendCloseRun(c, calls, notes, false)
+					if calls == 0 && notes > 0 {
+						c19sendCloseRun(c, 0, notes, true)
+					}
+				}
+				c.Distinct(fmt.Sprintf("H/sc/%d/%d", calls, notes))
+			}
+		}
+	}}) {
+		return false
+	}
 	// H/eq: op sequences, direct vs HTTP.
 	maxLen := e.Pick(2, 3)
 	for first := range c19ops {
